@@ -33,6 +33,10 @@ def run(chk, tier, seed):
             rs = []
             for j, c in enumerate(discread.concretise(cases[k], sub, "c%d" % i, with_low=(i % 3 == 0))):
                 evs += discread.observe_read(dfs, c, sub, i * 10 + j, rs=rs if (tier != "quick" or i % 4 == 0) else None)
+            if i % (3 if tier == "quick" else 1) == 0:
+                for j, c in enumerate(discread.concretise(cases[k], sub, "l%d" % i, long_len=True)):
+                    if c["start"] >= 8 and c["kind"].split("-")[0] in ("DFS", "WDFS", "opus", "mmb"):
+                        evs += discread.observe_read(dfs, c, sub, 1000000 + i * 10 + j)
             import shutil
             shutil.rmtree(sub, ignore_errors=True)
             return evs, rs
